@@ -54,7 +54,7 @@ Proof. intros s H. unfold P in H. destruct (stuck s); [reflexivity|lia]. Qed.
 
 (* ---- state updates *)
 Ltac qof := intros; apply Q_of; [auto using R_set_error, R_force_error, R_add_ref, R_add_class, R_add_alloc, R_add_excess,
-  R_add_steps, R_set_corrupt, R_set_simple, R_reset_refs, R_spin_by, R_skip_by, R_charge|unfold wk; cbn; lia|unfold wk; cbn; lia|unfold sx; cbn; lia].
+  R_add_steps, R_set_corrupt, R_set_simple, R_reset_refs, R_spin_by, R_skip_by, R_charge, R_add_rsv|unfold wk; cbn; lia|unfold wk; cbn; lia|unfold sx; cbn; lia].
 
 Lemma Q_set_error : forall s k, Q 0 s (set_error s k). Proof. qof. Qed.
 Lemma Q_force_error : forall s k, Q 0 s (force_error s k). Proof. qof. Qed.
@@ -73,6 +73,7 @@ Proof. reflexivity. Qed.
 Lemma stuck_charge : forall s n, stuck (charge s n) = stuck s.
 Proof. intros. unfold charge. destruct (n =? 0)%N; reflexivity. Qed.
 Lemma Q_add_excess : forall s n, Q 0 s (add_excess s n). Proof. qof. Qed.
+Lemma Q_add_rsv : forall s n, Q 0 s (add_rsv s n). Proof. qof. Qed.
 Lemma Q_add_steps1 : forall s, Q 1 s (add_steps s 1). Proof. qof. Qed.
 Lemma Q_set_corrupt : forall s, Q 0 s (set_corrupt s). Proof. qof. Qed.
 Lemma Q_set_simple : forall s b, Q 0 s (set_simple s b). Proof. qof. Qed.
@@ -167,6 +168,7 @@ Ltac solveQ :=
   | |- Q _ ?s (add_class ?x _) => eapply (Q_trans _ _ s x); [solveQ|apply Q_add_class]
   | |- Q _ ?s (add_alloc ?x _) => eapply (Q_trans _ _ s x); [solveQ|apply Q_add_alloc]
   | |- Q _ ?s (add_excess ?x _) => eapply (Q_trans _ _ s x); [solveQ|apply Q_add_excess]
+  | |- Q _ ?s (add_rsv ?x _) => eapply (Q_trans _ _ s x); [solveQ|apply Q_add_rsv]
   | |- Q _ ?s (charge ?x _) => eapply (Q_trans _ _ s x); [solveQ|apply Q_charge]
   | |- Q _ ?s (skip_by ?x _ _) => eapply (Q_trans _ _ s x); [solveQ|apply Q_skip_by]
   | |- Q _ ?s (add_steps ?x 1%N) => eapply (Q_trans _ _ s x); [solveQ|apply Q_add_steps1]
@@ -589,7 +591,7 @@ Qed.
 
 Lemma allQ_decode_error : forall tag s, (P s <= p0)%nat -> (1 <= r0)%nat -> allQ (c0 + 1) s (decode_error rt tag s).
 Proof.
-  intros tag s Hp Hr0. unfold decode_error. destruct (has_err s); [cbn [allQ]; eapply Q_le; [apply Q_refl|unfold c0; lia]|].
+  intros tag s Hp Hr0. unfold decode_error.
   replace (c0 + 1) with (c0 + 1 + 0) by lia. eapply allQ_bnd_Q; [apply HrtI; [exact Hp|exact Hr0]| |lia]. intros. leafAQ.
 Qed.
 
